@@ -980,3 +980,67 @@ func (p *Path) BoolResult(idx int) (known bool, val bool, atom *Term, pol bool) 
 	}
 	return false, false, a, pl
 }
+
+// LatchValue returns, for a path ending in a latch, the value the loop-header phi receives
+// along the back edge taken by this path.
+func (p *Path) LatchValue(phi *ssa.Phi) *Term {
+	if p.End != EndLatch || phi.Block() != p.Latch || len(p.Blocks) == 0 {
+		return nil
+	}
+	last := p.Blocks[len(p.Blocks)-1]
+	for i, pr := range p.Latch.Preds {
+		if pr == last {
+			return p.ctx.term(phi.Edges[i])
+		}
+	}
+	return nil
+}
+
+// HeaderPhis returns the phis of a loop header with their terms.
+func (l *Loop) HeaderPhis() []*ssa.Phi {
+	var out []*ssa.Phi
+	for _, in := range l.Header.Instrs {
+		if phi, ok := in.(*ssa.Phi); ok {
+			out = append(out, phi)
+		}
+	}
+	return out
+}
+
+// FieldStores returns, for a struct cell (alloc or other pointer value), the last value stored on
+// the path into each of its fields.
+func (p *Path) FieldStores(cell ssa.Value) map[string]*Term {
+	out := map[string]*Term{}
+	p.Instrs(func(in ssa.Instruction) {
+		st, ok := in.(*ssa.Store)
+		if !ok {
+			return
+		}
+		fa, ok := st.Addr.(*ssa.FieldAddr)
+		if !ok || fa.X != cell {
+			return
+		}
+		stt := fa.X.Type().Underlying().(*types.Pointer).Elem().Underlying().(*types.Struct)
+		out[stt.Field(fa.Field).Name()] = p.ctx.term(st.Val)
+	})
+	return out
+}
+
+// CellOf returns the SSA cell (pointer value) a term denotes when the term is an address
+// (alloc) or a load of one.
+func CellOf(t *Term) ssa.Value {
+	if t == nil || t.Val == nil {
+		return nil
+	}
+	switch v := t.Val.(type) {
+	case *ssa.Alloc:
+		return v
+	case *ssa.UnOp:
+		if a, ok := v.X.(*ssa.Alloc); ok {
+			return a
+		}
+	case *ssa.MakeInterface:
+		return CellOf(&Term{Val: v.X})
+	}
+	return nil
+}
